@@ -52,6 +52,8 @@ type opRec struct {
 	rib   int
 	fib   int
 	fails int
+	// wasHeld: the operation was at some point held for an unresolved reference.
+	wasHeld bool
 }
 
 type session struct {
@@ -260,7 +262,7 @@ func (e *env) oneResult(s *session, res *spb.AFTResult) {
 		other := e.allOps[res.GetId()]
 		if other != nil {
 			what := "unanswered operation"
-			if other.state == opHeld {
+			if other.state == opHeld || other.wasHeld {
 				what = "held operation"
 			}
 			e.probe("held operation of another session answered on this stream")
@@ -383,15 +385,21 @@ func (e *env) afterQuiescence(s *session) {
 				e.probe("operation held for an unresolved reference")
 			}
 			rec.state = opHeld
+			rec.wasHeld = true
 			modelHeld = append(modelHeld, id)
 		case VProgram:
 			e.report("C02", "resolvable-left-held", kindSig(rec.op)+" unanswered although resolvable", describeOp(rec.op), false)
 		case VFail:
-			if rec.state == opHeld && why == "replace of missing entry" {
-				// its target was deleted while it was held and nothing has retried it
-				// yet; its references do not resolve, so it may stay held.
-				modelHeld = append(modelHeld, id)
-				continue
+			if why == "replace of missing entry" && e.model.FwdRefs {
+				if _, en, _ := e.model.Analyse(rec.op); en != nil && !e.model.Resolvable(en) {
+					// it was held for an unresolved reference while its target existed, the
+					// target was deleted since, and nothing has retried it yet: its
+					// references still do not resolve, so it may stay held.
+					rec.state = opHeld
+					rec.wasHeld = true
+					modelHeld = append(modelHeld, id)
+					continue
+				}
 			}
 			e.report("C06", "unanswered", "operation that must fail got no result", describeOp(rec.op)+": "+why, false)
 		case VEither:
@@ -466,6 +474,11 @@ func (e *env) reportDiffs(prop, via string, ds []Diff) {
 			e.report(prop, "entry-extra", d.Key.Kind.String()+" entry present that no acknowledged operation installed ("+via+")", d.String(), false)
 		case "payload":
 			p := prop
+			if e.sc.Cfg.FullPayl {
+				// full-field payload families belong to C07: field fidelity of the
+				// proto -> YANG -> proto pipeline, not the fold of operations.
+				p = "C07"
+			}
 			sig := d.Key.Kind.String() + " fields " + strings.Join(d.Fields, ",")
 			e.report(p, "payload-mismatch", sig, d.String(), true)
 		}
@@ -589,13 +602,19 @@ func (e *env) checkGet(prop, ni string, all bool, t spb.AFTType) (Snapshot, []*s
 	return snap, rs
 }
 
-// fullGetCheck runs every (network instance | all) x (table | ALL) Get.
-func (e *env) fullGetCheck(prop string, thorough bool) {
-	nis := append([]string{""}, e.model.SortedNIs()...)
+// fullGetCheck compares Gets with the model. level 0: Get(all, ALL); level 1:
+// every network instance and all, table ALL; level 2: every (network instance |
+// all) x (table | ALL), ALL == disjoint union of the per-table Gets, and the
+// FromGetResponses round trip.
+func (e *env) fullGetCheck(prop string, level int) {
+	nis := []string{""}
+	if level >= 1 {
+		nis = append(nis, e.model.SortedNIs()...)
+	}
 	for _, ni := range nis {
 		all := ni == ""
 		types := aftTypes
-		if !thorough {
+		if level < 2 {
 			types = aftTypes[:1]
 		}
 		union := Snapshot{}
@@ -614,13 +633,13 @@ func (e *env) fullGetCheck(prop string, thorough bool) {
 				union[k] = v
 			}
 		}
-		if thorough {
+		if level >= 2 {
 			if ds := diffSnap(allSnap, union); len(ds) > 0 {
 				e.report(prop, "get-all-not-union", "Get(ALL) differs from the union of the per-table Gets", fmt.Sprint(ds), false)
 			}
-		}
-		if all && prop == "C07" {
-			e.roundTrip(allSnap, allRs)
+			if all {
+				e.roundTrip(allSnap, allRs)
+			}
 		}
 	}
 }
